@@ -1995,4 +1995,118 @@ theorem roundtrip_partial (t : SType) (v : SVal) (rest : Bytes) (h : HasTC v t) 
 theorem flatChar_not_good : ¬ flatCharHasTC.good := by
   simp [flatCharHasTC, HasTC.good, cgoods, cgood]
 
+
+/-! ## 10. fields skipped at run time (`#[serde(default, skip_serializing_if = …)]`) -/
+
+/-- `HasSkips names ts skips wn wt wv`: of the declared fields, those named `wn` (types `wt`,
+    values `wv`, in declaration order) are written; every other field's predicate holds for its
+    default, which is what a missing field becomes on input. -/
+inductive HasSkips : List Bytes → List SType → List SkipIf → List Bytes → List SType → List SVal → Type
+  | nil : HasSkips [] [] [] [] [] []
+  | written (n : Bytes) (t : SType) (k : SkipIf) (v : SVal) {ns ts ks wn wt wv} : HasT v t → k.holds v = false →
+      HasSkips ns ts ks wn wt wv → HasSkips (n :: ns) (t :: ts) (k :: ks) (n :: wn) (t :: wt) (v :: wv)
+  | skipped (n : Bytes) (t : SType) (k : SkipIf) (d : SVal) {ns ts ks wn wt wv} :
+      (if t.isOption then some SVal.none else k.dflt) = some d → k.holds d = true →
+      HasSkips ns ts ks wn wt wv → HasSkips (n :: ns) (t :: ts) (k :: ks) wn wt wv
+
+def hasSkips_all : {ns : List Bytes} → {ts : List SType} → {ks : List SkipIf} → {wn : List Bytes} → {wt : List SType} →
+    {wv : List SVal} → HasSkips ns ts ks wn wt wv → HasAll wv wt ×' wn.length = wt.length ×' ns.length = ts.length
+  | _, _, _, _, _, _, .nil => ⟨.nil, rfl, rfl⟩
+  | _, _, _, _, _, _, .written n t k v hv _ h => by
+    obtain ⟨a, b, c⟩ := hasSkips_all h
+    exact ⟨.cons _ _ _ _ hv a, by simp [b], by simp [c]⟩
+  | _, _, _, _, _, _, .skipped n t k d _ _ h => by
+    obtain ⟨a, b, c⟩ := hasSkips_all h
+    exact ⟨a, b, by simp [c]⟩
+
+theorem hasSkips_sub : {ns : List Bytes} → {ts : List SType} → {ks : List SkipIf} → {wn : List Bytes} → {wt : List SType} →
+    {wv : List SVal} → HasSkips ns ts ks wn wt wv → (fieldDecs wn wt).Sublist (fieldDecs ns ts) ∧ wn.Sublist ns
+  | _, _, _, _, _, _, .nil => by simp [fieldDecs]
+  | _, _, _, _, _, _, .written n t k v _ _ h => by
+    have := hasSkips_sub h
+    simp only [fieldDecs]
+    exact ⟨this.1.cons_cons _, this.2.cons_cons _⟩
+  | _, _, _, _, _, _, .skipped n t k d _ _ h => by
+    have := hasSkips_sub h
+    simp only [fieldDecs]
+    exact ⟨this.1.cons _, this.2.cons _⟩
+
+theorem get?_none_of_has_false (fd : Found) (k : Bytes) (h : fd.has k = false) : fd.get? k = none := by
+  induction fd with
+  | nil => rfl
+  | cons p fd ih =>
+    simp only [Found.has, List.any_cons, Bool.or_eq_false_iff] at h
+    simp only [Found.get?, List.find?, h.1]
+    exact ih (by simpa [Found.has] using h.2)
+
+theorem finishSkip_rt : {ns : List Bytes} → {ts : List SType} → {ks : List SkipIf} → {wn : List Bytes} → {wt : List SType} →
+    {wv : List SVal} → HasSkips ns ts ks wn wt wv → ns.Nodup → ∀ (pre : Found), (∀ n ∈ ns, pre.has n = false) →
+    finishSkip (fieldDecs ns ts) ks (pre ++ pairsOf wn wv) = some (mkKvs wn wv)
+  | _, _, _, _, _, _, .nil, _, _, _ => by simp [fieldDecs, finishSkip, mkKvs]
+  | _, _, _, _, _, _, .written n t k v (ns := ns) (wn := wn) (wv := wv) hv hh h, hnd, pre, hpre => by
+    simp only [List.nodup_cons] at hnd
+    have h1 : pre ++ pairsOf (n :: wn) (v :: wv) = (pre ++ [(n, v)]) ++ pairsOf wn wv := by simp [pairsOf]
+    have hget : Found.get? (pre ++ pairsOf (n :: wn) (v :: wv)) n = some v := by
+      rw [h1]
+      have h2 : Found.get? (pre ++ [(n, v)]) n = some v := by
+        rw [get?_append_of_has_false pre n n v (hpre n (by simp))]; simp
+      have h3 : Found.has (pre ++ [(n, v)]) n = true := by rw [has_append]; simp
+      rw [get?_append_of_has _ _ _ h3, h2]
+    have ih := finishSkip_rt h hnd.2 (pre ++ [(n, v)]) (by
+      intro m hm
+      rw [has_append, hpre m (by simp [hm])]
+      have : n ≠ m := fun e => hnd.1 (e ▸ hm)
+      simpa using this)
+    simp only [fieldDecs, finishSkip, List.headD_cons, List.tail_cons, hget, hh, Bool.false_eq_true, if_false, mkKvs]
+    rw [h1, ih]
+  | _, _, _, _, _, _, .skipped n t k d (ns := ns) (wn := wn) (wv := wv) hd hh h, hnd, pre, hpre => by
+    simp only [List.nodup_cons] at hnd
+    have hsub := (hasSkips_sub h).2
+    have hnw : n ∉ wn := fun hm => hnd.1 (hsub.subset hm)
+    have hhas : Found.has (pre ++ pairsOf wn wv) n = false := by
+      simp only [Found.has, List.any_append, Bool.or_eq_false_iff]
+      exact ⟨by simpa [Found.has] using hpre n (by simp), by simpa [Found.has] using pairsOf_has_false wn wv n hnw⟩
+    have hget := get?_none_of_has_false _ n hhas
+    have ih := finishSkip_rt h hnd.2 pre (fun m hm => hpre m (by simp [hm]))
+    simp only [fieldDecs, finishSkip, List.headD_cons, List.tail_cons, hget, hd, hh, if_true, ih]
+
+/-- **structs with run-time skipped fields round-trip**: the serialised map holds exactly the
+    written fields (its header counts them, `ser_wellformed`); on input the missing ones take
+    their defaults, for which the predicate holds again. -/
+theorem roundtrip_skipped_fields {ns : List Bytes} {ts : List SType} {ks : List SkipIf} {wn : List Bytes} {wt : List SType}
+    {wv : List SVal} (h : HasSkips ns ts ks wn wt wv) (hnd : ns.Nodup) (hok : ∀ n ∈ ns, nameOk n = true)
+    (hlen : wv.length < U64) (rest : Bytes) :
+    de (.structS ns ts ks) (ser (.struct (mkKvs wn wv)) ++ rest) = .ok (.struct (mkKvs wn wv)) rest := by
+  obtain ⟨hall, hlw, hln⟩ := hasSkips_all h
+  obtain ⟨hsubD, hsubN⟩ := hasSkips_sub h
+  have hwf := fieldDecs_wf ns ts hln hnd hok
+  have hlv : wn.length = wv.length := by rw [hlw, hasAll_length hall]
+  have hnw := fieldDecs_names wn wt hlw
+  have hloop := structLoop_rt (fieldDecs ns ts) hwf (fieldDecs wn wt) wv (fun f hf => hsubD.subset hf)
+    (by rw [hnw]; exact hsubN.nodup hnd) (by rw [fieldDecs_decs wn wt hlw]; exact roundtrip_all hall) [] rest
+    (by simp [Found.has])
+  rw [hnw] at hloop
+  have hfin := finishSkip_rt h hnd [] (by simp [Found.has])
+  simp only [List.nil_append] at hloop hfin
+  have hld : (fieldDecs wn wt).length = wv.length := by
+    have := congrArg List.length hnw
+    simp only [List.length_map] at this
+    omega
+  have hml : mapLoop (structStep (fieldDecs ns ts)) (some wv.length) [] (sers (mkKvs wn wv) ++ rest) =
+      .ok (pairsOf wn wv) rest := by
+    unfold mapLoop; rw [← hld]; exact hloop
+  have hbody : deStructSBody (fieldDecs ns ts) ks (Enc.map wv.length ++ (sers (mkKvs wn wv) ++ rest)) =
+      .ok (mkKvs wn wv) rest := by
+    unfold deStructSBody
+    rw [Dec.bind_ok _ _ _ _ _ (map_rt _ _ hlen), Dec.bind_ok _ _ _ _ _ hml, hfin]; rfl
+  simp only [de, ser, List.append_assoc, mkKvs_half wn wv hlv]
+  rw [Dec.bind_ok _ _ _ _ _ hbody]; rfl
+
+/-- non-vacuity: `struct Record { id: u32, note: Option<String> (skipped when None), tags: Vec<u8>
+    (skipped when empty), last: bool }` with `note = None`, `tags = [3]`. -/
+example : de (.structS [[0x69], [0x6e], [0x74], [0x6c]] [.int .u32, .option .str, .seq true (.int .u8), .bool]
+      [.never, .isNone, .isEmpty, .never])
+    (ser (.struct (mkKvs [[0x69], [0x74], [0x6c]] [.int .u32 1, .seq true [.int .u8 3], .bool true])) ++ [0x00]) =
+    .ok (.struct (mkKvs [[0x69], [0x74], [0x6c]] [.int .u32 1, .seq true [.int .u8 3], .bool true])) [0x00] := by rfl
+
 end Minicbor.C17
